@@ -25,7 +25,12 @@ RELATED = {'C01-m1':['C01','C17'],'C01-m2':['C01','C14'],'C02-m1':['C02','C01'],
  'C05-m9':['C05','C06'],'C05-m10':['C05','C07'],'C06-m9':['C06','C15'],'C06-m10':['C06','C02'],'C07-m9':['C07'],'C07-m10':['C07','C04'],'C10-m9':['C10'],'C10-m10':['C10'],
  'C11-m9':['C11','C07'],'C11-m10':['C11','C04'],'C12-m9':['C12','C07'],'C12-m10':['C12'],'C13-m9':['C13'],'C13-m10':['C13'],'C14-m9':['C14','C07'],'C14-m10':['C14','C01'],
  'C15-m9':['C15','C06'],'C15-m10':['C15','C06'],'C16-m9':['C16'],'C16-m10':['C16'],'C17-m9':['C17'],'C17-m10':['C17'],'C18-m9':['C18'],'C18-m10':['C18'],
- 'C19-m9':['C19'],'C19-m10':['C19'],'C20-m9':['C20'],'C20-m10':['C20','C07']}
+ 'C19-m9':['C19'],'C19-m10':['C19'],'C20-m9':['C20'],'C20-m10':['C20','C07'],
+ 'C01-m11':['C01','C02'],'C01-m12':['C01','C16','C02'],'C02-m11':['C02','C14'],'C02-m12':['C02','C16','C01'],'C03-m11':['C03'],'C03-m12':['C03','C05'],'C04-m11':['C04'],'C04-m12':['C04'],
+ 'C05-m11':['C05','C07'],'C05-m12':['C05','C07'],'C06-m11':['C06','C05'],'C06-m12':['C06'],'C07-m11':['C07'],'C07-m12':['C07','C05'],'C10-m11':['C10'],'C10-m12':['C10','C11'],
+ 'C11-m11':['C11'],'C11-m12':['C11','C10'],'C12-m11':['C12'],'C12-m12':['C12','C14'],'C13-m11':['C13'],'C13-m12':['C13'],'C14-m11':['C14'],'C14-m12':['C14'],
+ 'C15-m11':['C15','C07','C06'],'C15-m12':['C15','C06'],'C16-m11':['C16','C07'],'C16-m12':['C16'],'C17-m11':['C17','C07'],'C17-m12':['C17'],'C18-m11':['C18'],'C18-m12':['C18'],
+ 'C19-m11':['C19'],'C19-m12':['C19'],'C20-m11':['C20'],'C20-m12':['C20']}
 def one(d):
     name=os.path.basename(d)
     meta=json.load(open(os.path.join(d,'meta.json')))
